@@ -112,6 +112,8 @@ struct C14 {
     cmr10_bytes: Vec<u8>,
     fonts: HashMap<String, Option<Rc<Font>>>,
     plain: Option<boxworks_hyphenate::Hyphenator>,
+    /// the font whose program the driver currently holds (`prog` request)
+    last_prog: Option<String>,
 }
 
 // ---------------------------------------------------------------------------------------------
@@ -791,7 +793,10 @@ impl Property for C14 {
                 }
             }
         }
-        let (n_text, n_syn) = if ctx.thorough { (200_000, 1_000_000) } else { (15_000, 60_000) };
+        let (n_text, n_syn) = if ctx.thorough { (120_000, 650_000) } else { (12_000, 40_000) };
+        // overrides for profiling the harness by hand
+        let n_text = std::env::var("VERIF_C14_NTEXT").ok().and_then(|x| x.parse().ok()).unwrap_or(n_text);
+        let n_syn = std::env::var("VERIF_C14_NSYN").ok().and_then(|x| x.parse().ok()).unwrap_or(n_syn);
         let mut r1 = rng.fork();
         for _ in 0..n_text {
             v.push(gen_text_case(&mut r1));
@@ -886,6 +891,10 @@ impl Property for C14 {
         let mut raws: Vec<i64> = vec![words.len() as i64];
         for (_, _, _, s) in &words {
             let r: Vec<usize> = hy.hyphenator.calculate_indices(&lc, s).collect();
+            // hypothesis of `positions_exact`: Liang positions come in strictly ascending order
+            if r.windows(2).any(|w| w[0] >= w[1]) {
+                out.fail(Kind::ImplVsSpec, "liang", "raw positions not strictly ascending", format!("word {s}: {r:?}"));
+            }
             raws.push(r.len() as i64);
             raws.extend(r.iter().map(|&x| x as i64));
         }
@@ -996,7 +1005,14 @@ impl Property for C14 {
         match &font.enc {
             None => out.tag("recon-model:skipped(to_scaled panics)"),
             Some(pe) => {
-                let reply = drv.ask(&format!("rm {} {} {} {} {} {}", c.lhm, c.rhm, pe, join(&enc_in), join(&enc_out), join(&raws)));
+                if self.last_prog.as_deref() != Some(c.font.as_str()) {
+                    let ok = drv.ask(&format!("prog {pe}"));
+                    if !ok.starts_with("ok") {
+                        panic!("driver: {ok} on prog");
+                    }
+                    self.last_prog = Some(c.font.clone());
+                }
+                let reply = drv.ask(&format!("rm {} {} {} {} {}", c.lhm, c.rhm, join(&enc_in), join(&enc_out), join(&raws)));
                 if reply.starts_with("bad") {
                     panic!("driver: {reply} on rm");
                 }
@@ -1011,6 +1027,15 @@ impl Property for C14 {
                         "reconstitution model differs from the real output",
                         format!("{}\nmodel:  {}", detail(), parts.get(2).unwrap_or(&"")),
                     ),
+                }
+                // `hyphenateM_invariants`: model output = real output and unbroken = input imply P1
+                let ub = parts.get(3).map(|x| x.trim()).unwrap_or("");
+                out.tag(format!("recon-model:{}", if ub == "ub=1" { "unbroken=input" } else { "unbroken!=input (boundary artefact)" }));
+                if parts[0].trim() == "1" && ub == "ub=1" && f("p1") != "1" {
+                    out.fail(Kind::ModelVsSpec, "recon", "P1 fails although model = output and unbroken = input", detail());
+                }
+                if parts[0].trim() == "1" && f("p2") != "1" {
+                    out.fail(Kind::ModelVsSpec, "recon", "P2 fails although model = output", detail());
                 }
                 // the engine itself: items and separation points of every main run vs the real RunIter
                 for run in parts.get(1).unwrap_or(&"").split(';').filter(|r| !r.trim().is_empty()) {
@@ -1153,5 +1178,5 @@ fn main() {
         a.iter().position(|x| x == "--repo").and_then(|i| a.get(i + 1).cloned()).unwrap_or(repo)
     };
     let bytes = std::fs::read(format!("{repo}/crates/tfm/corpus/computer-modern/cmr10.tfm")).expect("cmr10.tfm");
-    run(C14 { cmr10_bytes: bytes, fonts: HashMap::new(), plain: None });
+    run(C14 { cmr10_bytes: bytes, fonts: HashMap::new(), plain: None, last_prog: None });
 }
